@@ -305,4 +305,24 @@ example :
     hides (.key 0 ctrl) (.key 1 cs) = true ∧ hides (.key 0 ctrl) (.key 0 {}) = true ∧ hides (.key 0 ctrl) (.key 1 {}) = false := by
   decide
 
+/-- what a hidden input contributes: a binding of a later action that names an input hidden in the reader at that action's
+    turn is evaluated on the *inactive* value of that input — its modifiers run on zero and its conditions on their result,
+    exactly as if the device were at rest (the binding is not skipped, C12; whether it is hidden is decided by
+    `update_consumes` / `registry_keeps_hidden`) -/
+theorem hidden_binding_evaluates_inactive (r : Reader) (av : ActionsView) (t : Tick) (b : InputBind) (e : Ev)
+    (h : (evalInput r av t b).2.1 = some e) (hj : hiddenBy r.consumed r.device b.input = true) :
+    e.tracker.value = runMods av t b.mods (inactive b.input)
+    ∧ e.results = runConds av t b.conds (runMods av t b.mods (inactive b.input)) := by
+  obtain ⟨_, hv, hres, _, _⟩ := evalInput_spec r av t b e h
+  have hin := hidden_reads_inactive r b.input hj
+  rw [hin] at hv
+  exact ⟨hv, by rw [hres, hv]⟩
+
+/-- every evaluated input of an action comes from one of its bindings by `evalInput` -/
+theorem evalAll_mem (r : Reader) (av : ActionsView) (t : Tick) (bs : List InputBind) (e : Ev) (he : e ∈ evalAll r av t bs) :
+    ∃ b ∈ bs, (evalInput r av t b).2.1 = some e := by
+  unfold evalAll at he
+  rw [List.mem_filterMap] at he
+  exact he
+
 end BEI.Props.C05
